@@ -151,11 +151,14 @@ def Label.global : Label → Bool
 @[simp] theorem N_nextTag (s : State) : (N s).nextTag = s.nextTag := by simp [N_def]
 @[simp] theorem N_closeReturned (s : State) : (N s).closeReturned = s.closeReturned := by simp [N_def]
 
-theorem normSub_new (a b c d : Nat) : normSub (Sub.new a b c d) = Sub.new a b c d := by
+theorem normSub_new (a b c d : Nat) (e : Bool) : normSub (Sub.new a b c d e) = Sub.new a b c d e := by
   simp [normSub, Sub.new]
 
+@[simp] theorem N_cancelledCalls (s : State) : (N s).cancelledCalls = s.cancelledCalls := by
+  simp [N_def]
+
 @[simp] theorem newSubs_N (s : State) (t j : Nat) : newSubs (N s) t j = newSubs s t j := by
-  simp [newSubs]
+  simp only [newSubs, N_currentID, N_log, N_cancelledCalls]
 
 @[simp] theorem map_normSub_newSubs (s : State) (t j : Nat) :
     (newSubs s t j).map normSub = newSubs s t j := by
